@@ -128,11 +128,11 @@ Qed.
 
 (* N *)
 Lemma n_nonneg mu sigma z : 0 <= g_n mu sigma z.
-Proof. unfold g_n. qcases; lra. Qed.
+Proof. unfold g_n. destruct (qmax_spec 0 (mu + sigma * z)) as [[Hq Eq]|[Hq Eq]]; rewrite Eq; lra. Qed.
 Lemma n_identity mu sigma z : 0 <= mu + sigma * z -> g_n mu sigma z == mu + sigma * z.
-Proof. intro H. unfold g_n. qcases; lra. Qed.
+Proof. intro H. unfold g_n. destruct (qmax_spec 0 (mu + sigma * z)) as [[Hq Eq]|[Hq Eq]]; rewrite Eq; lra. Qed.
 Lemma n_censored mu sigma z : mu + sigma * z <= 0 -> g_n mu sigma z == 0.
-Proof. intro H. unfold g_n. qcases; lra. Qed.
+Proof. intro H. unfold g_n. destruct (qmax_spec 0 (mu + sigma * z)) as [[Hq Eq]|[Hq Eq]]; rewrite Eq; lra. Qed.
 (* for x >= 0 and sigma > 0: {z : g(z) <= x} = {z <= (x-mu)/sigma}: a standard normal z gives Phi((x-mu)/sigma) *)
 Lemma n_cdf mu sigma z x : 0 < sigma -> 0 <= x -> (g_n mu sigma z <= x <-> z <= (x - mu) / sigma).
 Proof.
@@ -143,7 +143,7 @@ Proof.
     - assert (H2 : z * sigma <= (x - mu) / sigma * sigma) by (apply Qmult_le_compat_r; lra).
       assert (E : (x - mu) / sigma * sigma == x - mu) by (field; lra).
       rewrite E in H2. lra. }
-  rewrite <- E. qcases; split; intro; lra.
+  rewrite <- E. destruct (qmax_spec 0 (mu + sigma * z)) as [[Hq Eq]|[Hq Eq]]; rewrite Eq; split; intro; lra.
 Qed.
 
 (* identity transforms and rounding *)
@@ -195,7 +195,7 @@ Qed.
 
 Lemma search_right_bound (inv u : Q) : 0 < inv -> forall ps acc,
   acc * inv <= u -> u < (acc + qsum ps) * inv ->
-  (search_right (map (fun x => x * inv) (cumsum_from acc ps)) u < length ps)%nat.
+  (search_right (map (fun x => (x * inv)%Q) (cumsum_from acc ps)) u < length ps)%nat.
 Proof.
   intros Hinv. induction ps as [|x r IH]; intros acc H1 H2.
   - cbn [qsum] in H2. nra.
@@ -304,7 +304,9 @@ Proof.
   intros Hs H1 H2. cbn [vec_times markov_P fst] in H2.
   assert (Hx : x * (alpha + beta) == beta) by nra.
   assert (Hy : y * (alpha + beta) == alpha) by nra.
-  split; [rewrite <- Hx | rewrite <- Hy]; field; lra.
+  split.
+  - transitivity (x * (alpha + beta) / (alpha + beta)); [field; lra | rewrite Hx; reflexivity].
+  - transitivity (y * (alpha + beta) / (alpha + beta)); [field; lra | rewrite Hy; reflexivity].
 Qed.
 
 Lemma steady_markov_degenerate : steady_markov 0 0 = None.
@@ -326,4 +328,293 @@ Proof.
   assert (0 < inject_Z (Z.of_nat (length l))) by (change 0 with (inject_Z 0); rewrite <- Zlt_Qlt; lia).
   assert (0 < inject_Z (Z.of_nat k)) by (change 0 with (inject_Z 0); rewrite <- Zlt_Qlt; lia).
   field. split; lra.
+Qed.
+
+(* ============================================================================================ *)
+(* 5. convolution: pointwise formula, moments, L-fold powers                                     *)
+
+Lemma qnat_S i : qnat (S i) == qnat i + 1.
+Proof. unfold qnat. rewrite Nat2Z.inj_succ, <- Z.add_1_r. apply inject_Z_succ. Qed.
+Lemma qnat_0 : qnat 0 == 0.
+Proof. reflexivity. Qed.
+Lemma qnat_add a b : qnat (a + b) == qnat a + qnat b.
+Proof. unfold qnat. rewrite Nat2Z.inj_add, inject_Z_plus. reflexivity. Qed.
+
+Lemma wsum_shift f k l : wsum f (S k) l = wsum (fun i => f (S i)) k l.
+Proof. revert k. induction l as [|x r IH]; intro k; cbn [wsum]; [reflexivity | rewrite IH; reflexivity]. Qed.
+Lemma wsum_ext f g k l : (forall i, f i == g i) -> wsum f k l == wsum g k l.
+Proof. intro H. revert k. induction l as [|x r IH]; intro k; cbn [wsum]; [reflexivity | rewrite IH, H; reflexivity]. Qed.
+Lemma wsum_add f g k l : wsum (fun i => f i + g i) k l == wsum f k l + wsum g k l.
+Proof. revert k. induction l as [|x r IH]; intro k; cbn [wsum]; [lra | rewrite IH; ring]. Qed.
+Lemma wsum_scale c f k l : wsum (fun i => c * f i) k l == c * wsum f k l.
+Proof. revert k. induction l as [|x r IH]; intro k; cbn [wsum]; [lra | rewrite IH; ring]. Qed.
+Lemma wsum_const c k l : wsum (fun _ => c) k l == c * qsum l.
+Proof. revert k. induction l as [|x r IH]; intro k; cbn [wsum qsum]; [lra | rewrite IH; ring]. Qed.
+Lemma wsum_padd f k a b : wsum f k (padd a b) == wsum f k a + wsum f k b.
+Proof.
+  revert k b. induction a as [|x a IH]; intros k b; [cbn [padd wsum]; lra|].
+  destruct b as [|y b]; cbn [padd wsum]; [lra | rewrite IH; ring].
+Qed.
+Lemma wsum_map_scale f k c l : wsum f k (map (Qmult c) l) == c * wsum f k l.
+Proof. revert k. induction l as [|x r IH]; intro k; cbn [wsum map]; [lra | rewrite IH; ring]. Qed.
+
+(* index moments *)
+Definition M0 (l : list Q) : Q := qsum l.
+Definition M1 (l : list Q) : Q := wsum qnat 0 l.
+Definition M2 (l : list Q) : Q := wsum (fun i => qnat i * qnat i) 0 l.
+
+Lemma M0_wsum l : M0 l == wsum (fun _ => 1) 0 l.
+Proof. unfold M0. rewrite wsum_const. ring. Qed.
+Lemma M1_cons x l : M1 (x :: l) == M1 l + M0 l.
+Proof.
+  unfold M1, M0. cbn [wsum]. rewrite wsum_shift.
+  rewrite (wsum_ext (fun i => qnat (S i)) (fun i => qnat i + 1)) by (intro; apply qnat_S).
+  rewrite wsum_add, wsum_const. rewrite qnat_0. ring.
+Qed.
+Lemma M2_cons x l : M2 (x :: l) == M2 l + 2 * M1 l + M0 l.
+Proof.
+  unfold M2, M1, M0. cbn [wsum]. rewrite wsum_shift.
+  rewrite (wsum_ext (fun i => qnat (S i) * qnat (S i)) (fun i => qnat i * qnat i + (2 * qnat i + 1)))
+    by (intro; rewrite qnat_S; ring).
+  rewrite wsum_add, wsum_add, wsum_scale, wsum_const. rewrite qnat_0. ring.
+Qed.
+Lemma M0_cons x l : M0 (x :: l) == x + M0 l.
+Proof. reflexivity. Qed.
+
+Lemma M0_padd a b : M0 (padd a b) == M0 a + M0 b.
+Proof. rewrite !M0_wsum. apply wsum_padd. Qed.
+Lemma M0_map_scale c l : M0 (map (Qmult c) l) == c * M0 l.
+Proof. rewrite !M0_wsum. apply wsum_map_scale. Qed.
+
+Lemma conv_moments a b :
+  M0 (conv a b) == M0 a * M0 b /\
+  M1 (conv a b) == M1 a * M0 b + M0 a * M1 b /\
+  M2 (conv a b) == M2 a * M0 b + 2 * M1 a * M1 b + M0 a * M2 b.
+Proof.
+  induction a as [|x a [IH0 [IH1 IH2]]].
+  - cbn [conv]. unfold M0, M1, M2. cbn [qsum wsum]. repeat split; ring.
+  - cbn [conv]. repeat split.
+    + rewrite M0_padd, M0_map_scale, !M0_cons, IH0. ring.
+    + unfold M1 at 1. rewrite wsum_padd, wsum_map_scale. fold (M1 b) (M1 (0 :: conv a b)).
+      rewrite !M1_cons, M0_cons, IH0, IH1. ring.
+    + unfold M2 at 1. rewrite wsum_padd, wsum_map_scale. fold (M2 b) (M2 (0 :: conv a b)).
+      rewrite !M2_cons, !M1_cons, M0_cons, IH0, IH1, IH2. ring.
+Qed.
+
+Lemma pmf_mean_M off l : pmf_mean off l == off * M0 l + M1 l.
+Proof. unfold pmf_mean, M1. rewrite wsum_add, wsum_const. reflexivity. Qed.
+Lemma pmf_m2_M off l : pmf_m2 off l == off * off * M0 l + 2 * off * M1 l + M2 l.
+Proof.
+  unfold pmf_m2, M1, M2.
+  rewrite (wsum_ext _ (fun i => off * off + (2 * off * qnat i + qnat i * qnat i))) by (intro; ring).
+  rewrite wsum_add, wsum_add, wsum_scale, wsum_const. fold (M0 l). Show. ring.
+Qed.
+(* the variance does not depend on where the support starts *)
+Lemma pmf_var_M off l : M0 l == 1 -> pmf_var off l == M2 l - M1 l * M1 l.
+Proof. intro H. unfold pmf_var. rewrite pmf_m2_M, pmf_mean_M, H. ring. Qed.
+
+Lemma conv_pow_moments L p : M0 p == 1 ->
+  M0 (conv_pow L p) == 1 /\ M1 (conv_pow L p) == qnat L * M1 p /\
+  M2 (conv_pow L p) - M1 (conv_pow L p) * M1 (conv_pow L p) == qnat L * (M2 p - M1 p * M1 p).
+Proof.
+  intro Hp. induction L as [|L [IH0 [IH1 IH2]]].
+  - cbn [conv_pow]. unfold M0, M1, M2. cbn [qsum wsum]. rewrite qnat_0. repeat split; ring.
+  - cbn [conv_pow]. destruct (conv_moments (conv_pow L p) p) as [C0 [C1 C2]].
+    rewrite qnat_S. repeat split.
+    + rewrite C0, IH0, Hp. ring.
+    + rewrite C1, IH0, IH1, Hp. ring.
+    + rewrite C2, C1, IH0, IH1, Hp.
+      assert (E : M2 (conv_pow L p) == qnat L * (M2 p - M1 p * M1 p) + qnat L * M1 p * (qnat L * M1 p))
+        by (rewrite <- IH2, IH1; ring).
+      rewrite E. ring.
+Qed.
+
+(* ltd_moments: total mass 1, mean L*mu, variance L*sigma^2, for every L and every pmf list summing to 1
+   (entries need not even be non-negative), with the support starting at L*off *)
+Lemma ltd_moments L off p : qsum p == 1 ->
+  qsum (conv_pow L p) == 1 /\
+  pmf_mean (qnat L * off) (conv_pow L p) == qnat L * pmf_mean off p /\
+  pmf_var (qnat L * off) (conv_pow L p) == qnat L * pmf_var off p.
+Proof.
+  intro Hp. destruct (conv_pow_moments L p Hp) as [H0 [H1 H2]]. fold (M0 p) in Hp. fold (M0 (conv_pow L p)).
+  split; [exact H0|]. split.
+  - rewrite !pmf_mean_M, H0, H1, Hp. ring.
+  - rewrite !pmf_var_M by assumption. exact H2.
+Qed.
+
+(* pointwise: (a * b)_n = sum_{i <= n} a_i b_{n-i}: conv is THE convolution of the two pmfs *)
+Lemma nth_padd a b n : nth n (padd a b) 0 == nth n a 0 + nth n b 0.
+Proof.
+  revert b n. induction a as [|x a IH]; intros b n.
+  - cbn [padd]. destruct n; cbn [nth]; lra.
+  - destruct b as [|y b]; cbn [padd]; [destruct n; cbn [nth]; lra|].
+    destruct n; cbn [nth]; [lra | apply IH].
+Qed.
+Lemma nth_map_scale c l n : nth n (map (Qmult c) l) 0 == c * nth n l 0.
+Proof. revert n. induction l as [|x r IH]; intro n; destruct n; cbn [map nth]; try lra. apply IH. Qed.
+Lemma qsum_range_shift f lo n : qsum_range f (S lo) n == qsum_range (fun i => f (S i)) lo n.
+Proof. revert lo. induction n as [|n IH]; intro lo; cbn [qsum_range]; [lra | rewrite IH; lra]. Qed.
+
+Lemma conv_nth a b n : nth n (conv a b) 0 == qsum_range (fun i => nth i a 0 * nth (n - i) b 0) 0 (S n).
+Proof.
+  revert n. induction a as [|x a IH]; intro n.
+  - cbn [conv]. rewrite (qsum_range_ext _ (fun _ => 0)).
+    + assert (Z : forall lo m, qsum_range (fun _ => 0) lo m == 0)
+        by (intros lo m; revert lo; induction m as [|m IHm]; intro lo; cbn [qsum_range]; [lra | rewrite IHm; lra]).
+      rewrite Z. destruct n; reflexivity.
+    + intros i _. destruct i; cbn [nth]; ring.
+  - cbn [conv]. rewrite nth_padd, nth_map_scale. cbn [qsum_range]. rewrite qsum_range_shift.
+    destruct n as [|n].
+    + cbn [nth qsum_range Nat.sub]. ring.
+    + cbn [nth]. rewrite IH. cbn [Nat.sub]. rewrite Nat.sub_0_r.
+      rewrite (qsum_range_ext (fun i => nth (S i) (x :: a) 0 * nth (S n - S i) b 0) (fun i => nth i a 0 * nth (n - i) b 0))
+        by (intros; reflexivity).
+      ring.
+Qed.
+
+(* the base pmfs *)
+Lemma qsum_repeat c n : qsum (repeat c n) == qnat n * c.
+Proof. induction n as [|n IH]; cbn [repeat qsum]; [rewrite qnat_0; ring | rewrite IH, qnat_S; ring]. Qed.
+Lemma qnat_pos n : (1 <= n)%nat -> 0 < qnat n.
+Proof. intro H. unfold qnat. change 0 with (inject_Z 0). rewrite <- Zlt_Qlt. lia. Qed.
+Lemma ud_pmf_mass lo hi : qsum (ud_pmf lo hi) == 1.
+Proof. unfold ud_pmf. rewrite qsum_repeat. pose proof (qnat_pos (hi - lo + 1) ltac:(lia)). field. lra. Qed.
+Lemma nb_trunc_mass tbl : ~ qsum tbl == 0 -> qsum (nb_trunc tbl) == 1.
+Proof.
+  intro H. unfold nb_trunc.
+  assert (E : forall l s, qsum (map (fun x => x / s) l) == qsum l / s).
+  { intros l s. induction l as [|x r IH]; cbn [map qsum]; [unfold Qdiv; ring | rewrite IH; unfold Qdiv; ring]. }
+  rewrite E. field. exact H.
+Qed.
+
+(* ============================================================================================ *)
+(* 6. zero padding of a custom discrete pmf                                                       *)
+
+Lemma cd_lookup_notin xs ps x : ~ In x xs -> cd_lookup xs ps x = 0.
+Proof.
+  revert ps. induction xs as [|x0 xs IH]; intros ps H; [destruct ps; reflexivity|].
+  destruct ps as [|p0 ps]; [reflexivity|]. cbn [cd_lookup].
+  destruct (Nat.eqb_spec x x0) as [->|Hne]; [exfalso; apply H; left; reflexivity|].
+  apply IH. intro Hin. apply H. right. exact Hin.
+Qed.
+
+Lemma cd_lookup_nth xs ps i : NoDup xs -> length xs = length ps -> (i < length xs)%nat ->
+  cd_lookup xs ps (nth i xs 0%nat) = nth i ps 0.
+Proof.
+  revert ps i. induction xs as [|x0 xs IH]; intros ps i Hnd Hlen Hi; [cbn [length] in Hi; lia|].
+  destruct ps as [|p0 ps]; [discriminate|]. inversion Hnd as [|? ? Hnotin Hnd']; subst.
+  destruct i as [|i]; cbn [nth cd_lookup].
+  - rewrite Nat.eqb_refl. reflexivity.
+  - cbn [length] in Hi, Hlen.
+    destruct (Nat.eqb_spec (nth i xs 0%nat) x0) as [E|Hne].
+    + exfalso. apply Hnotin. rewrite <- E. apply nth_In. lia.
+    + apply IH; auto; lia.
+Qed.
+
+Lemma sum_replace_notin (f g : nat -> Q) a x0 l : ~ In x0 l ->
+  qsum (map (fun x => f x * (if Nat.eqb x x0 then a else g x)) l) == qsum (map (fun x => f x * g x) l).
+Proof.
+  intro H. apply qsum_map_ext. intros x Hx.
+  destruct (Nat.eqb_spec x x0) as [->|_]; [contradiction | reflexivity].
+Qed.
+
+Lemma sum_replace_in (f g : nat -> Q) a x0 lo n : (lo <= x0 < lo + n)%nat ->
+  qsum (map (fun x => f x * (if Nat.eqb x x0 then a else g x)) (seq lo n)) ==
+  f x0 * a - f x0 * g x0 + qsum (map (fun x => f x * g x) (seq lo n)).
+Proof.
+  revert lo. induction n as [|n IH]; intros lo H; [lia|].
+  cbn [seq map qsum].
+  destruct (Nat.eqb_spec lo x0) as [->|Hne].
+  - rewrite sum_replace_notin by (rewrite in_seq; lia). ring.
+  - rewrite IH by lia. ring.
+Qed.
+
+Lemma cd_weighted_sum (f : nat -> Q) lo n : forall xs ps, NoDup xs -> length xs = length ps ->
+  (forall x, In x xs -> (lo <= x < lo + n)%nat) ->
+  qsum (map (fun x => f x * cd_lookup xs ps x) (seq lo n)) == qsum (map (fun '(x, p) => f x * p) (combine xs ps)).
+Proof.
+  induction xs as [|x0 xs IH]; intros ps Hnd Hlen Hin.
+  - cbn [cd_lookup combine map qsum].
+    rewrite (qsum_map_ext _ (fun _ => 0)) by (intros; ring).
+    induction (seq lo n) as [|y r IHr]; cbn [map qsum]; [lra | rewrite IHr; lra].
+  - destruct ps as [|p0 ps]; [discriminate|]. inversion Hnd as [|? ? Hnotin Hnd']; subst.
+    cbn [combine map qsum].
+    rewrite <- IH; auto; [|intros x Hx; apply Hin; right; exact Hx].
+    change (fun x => f x * cd_lookup (x0 :: xs) (p0 :: ps) x)
+      with (fun x => f x * (if Nat.eqb x x0 then p0 else cd_lookup xs ps x)).
+    rewrite sum_replace_in by (apply Hin; left; reflexivity).
+    rewrite (cd_lookup_notin xs ps x0 Hnotin). ring.
+Qed.
+
+Lemma min_list_le x r y : In y (x :: r) -> (fold_right Nat.min x r <= y)%nat.
+Proof.
+  induction r as [|z r IH]; intro H; cbn [fold_right].
+  - destruct H as [->|[]]. lia.
+  - destruct H as [->|[->|H]]; [pose proof (IH (or_introl eq_refl)) | | pose proof (IH (or_intror H))]; lia.
+Qed.
+Lemma max_list_ge x r y : In y (x :: r) -> (y <= fold_right Nat.max x r)%nat.
+Proof.
+  induction r as [|z r IH]; intro H; cbn [fold_right].
+  - destruct H as [->|[]]. lia.
+  - destruct H as [->|[->|H]]; [pose proof (IH (or_introl eq_refl)) | | pose proof (IH (or_intror H))]; lia.
+Qed.
+Lemma cd_range xs x : In x xs -> (nat_min_list xs <= x <= nat_max_list xs)%nat.
+Proof.
+  destruct xs as [|x0 r]; [intros []|]. intro H. unfold nat_min_list, nat_max_list.
+  split; [apply min_list_le | apply max_list_ge]; exact H.
+Qed.
+
+Lemma wsum_map_seq (F : nat -> Q) (h : nat -> Q) c n : forall k,
+  wsum (fun i => F (i + c)%nat) k (map h (seq (k + c) n)) == qsum (map (fun x => F x * h x) (seq (k + c) n)).
+Proof.
+  induction n as [|n IH]; intro k; [reflexivity|].
+  cbn [seq map wsum qsum]. change (S (k + c)) with (S k + c)%nat. rewrite IH. reflexivity.
+Qed.
+
+(* cd_zero_padding: for a demand list of distinct non-negative integers, the zero-padded vector over
+   min..max used for the lead-time demand has the same pmf: the entry at x_i is p_i, every other entry is 0,
+   and total mass / mean / second moment are those of (xs, ps). *)
+Lemma cd_zero_padding xs ps : NoDup xs -> length xs = length ps ->
+  let lo := nat_min_list xs in
+  (forall i, (i < length xs)%nat -> nth (nth i xs 0%nat - lo) (cd_pad xs ps) 0 = nth i ps 0) /\
+  (forall x, ~ In x xs -> nth (x - lo) (cd_pad xs ps) 0 = 0) /\
+  qsum (cd_pad xs ps) == qsum ps /\
+  pmf_mean (qnat lo) (cd_pad xs ps) == qsum (map (fun '(x, p) => qnat x * p) (combine xs ps)) /\
+  pmf_m2 (qnat lo) (cd_pad xs ps) == qsum (map (fun '(x, p) => qnat x * qnat x * p) (combine xs ps)).
+Proof.
+  intros Hnd Hlen lo. unfold cd_pad. fold lo. set (hi := nat_max_list xs).
+  assert (Hr : forall x, In x xs -> (lo <= x < lo + (hi - lo + 1))%nat)
+    by (intros x Hx; pose proof (cd_range xs x Hx); unfold lo, hi; lia).
+  assert (Hnth0 : forall y, nth y (map (cd_lookup xs ps) (seq lo (hi - lo + 1))) 0 =
+                            if Nat.ltb y (hi - lo + 1) then cd_lookup xs ps (lo + y) else 0).
+  { intro y. destruct (Nat.ltb_spec y (hi - lo + 1)) as [Hy|Hy].
+    - rewrite (nth_indep _ 0 (cd_lookup xs ps 0%nat)) by (rewrite map_length, seq_length; exact Hy).
+      rewrite map_nth, seq_nth by exact Hy. reflexivity.
+    - apply nth_overflow. rewrite map_length, seq_length. exact Hy. }
+  repeat split.
+  - intros i Hi. pose proof (Hr _ (nth_In xs 0%nat Hi)) as Hx. rewrite Hnth0.
+    destruct (Nat.ltb_spec (nth i xs 0%nat - lo) (hi - lo + 1)) as [_|Hy]; [|lia].
+    replace (lo + (nth i xs 0%nat - lo))%nat with (nth i xs 0%nat) by lia.
+    apply cd_lookup_nth; auto.
+  - intros x Hx. rewrite Hnth0.
+    destruct (Nat.ltb (x - lo) (hi - lo + 1)); [|reflexivity].
+    destruct (Nat.le_gt_cases lo x) as [Hle|Hgt].
+    + replace (lo + (x - lo))%nat with x by lia. apply cd_lookup_notin; exact Hx.
+    + replace (lo + (x - lo))%nat with lo by lia. apply cd_lookup_notin. intro Hin. apply Hx.
+      (* lo is below x, so lo in xs would not contradict; use that x < lo means x not in range: lookup at lo *)
+      exfalso. pose proof (cd_range xs lo Hin). lia.
+  - rewrite <- (map_id ps) at 2.
+    pose proof (cd_weighted_sum (fun _ => 1) lo (hi - lo + 1) xs ps Hnd Hlen Hr) as H.
+    rewrite (qsum_map_ext (fun x => 1 * cd_lookup xs ps x) (cd_lookup xs ps)) in H by (intros; ring).
+    rewrite H. clear H Hr Hnth0. revert ps Hlen. clear Hnd. induction xs as [|x0 xs IH]; intros ps Hlen.
+    + destruct ps; [reflexivity | discriminate].
+    + destruct ps as [|p0 ps]; [discriminate|]. cbn [combine map qsum]. rewrite IH by (cbn [length] in Hlen; lia). ring.
+  - unfold pmf_mean.
+    rewrite (wsum_ext _ (fun i => qnat (i + lo))) by (intro; rewrite qnat_add; ring).
+    rewrite (wsum_map_seq qnat (cd_lookup xs ps) lo (hi - lo + 1) 0).
+    apply (cd_weighted_sum qnat lo (hi - lo + 1) xs ps Hnd Hlen Hr).
+  - unfold pmf_m2.
+    rewrite (wsum_ext _ (fun i => qnat (i + lo) * qnat (i + lo))) by (intro; rewrite qnat_add; ring).
+    rewrite (wsum_map_seq (fun x => qnat x * qnat x) (cd_lookup xs ps) lo (hi - lo + 1) 0).
+    apply (cd_weighted_sum (fun x => qnat x * qnat x) lo (hi - lo + 1) xs ps Hnd Hlen Hr).
 Qed.
